@@ -21,7 +21,7 @@ def srcOk (ps : Params) (top : Bool) (tail : Bool) : Core → Bool
   | .glob _ => true
   | .lam _ _ _ body => decide (clen body + 1 ≤ ps.maxLen) && srcOk ps false true body
   | .app f args => (tail || top) && decide (args.length ≤ ps.maxN) && srcOkL ps top args && srcOk ps top false f
-  | .callG g args => (tail || top || ps.slots.contains g) && srcOkL ps top args
+  | .callG g args => (tail || top || ps.slots.contains g) && decide (args.length ≤ ps.maxN) && srcOkL ps top args
   | .selfTail args => decide (args.length ≤ ps.maxN) && srcOkL ps top args
   | .ite c t e => srcOk ps top false c && srcOk ps top tail t && srcOk ps top tail e
   | .let_ _ inits body => srcOkL ps top inits && srcOk ps top tail body
@@ -46,6 +46,9 @@ structure InstrOk (ps : Params) (top : Bool) (code : List Instr) (j : Nat) : Pro
   jump : ∀ (t : Nat), (code[j]? = some (Instr.IF t) ∨ code[j]? = some (Instr.JMP t)) → Ok code t
   bind : ∀ (g : Nat), (code[j]? = some (Instr.BIND g) ∨ code[j]? = some (Instr.SET g)) → g ∉ ps.slots
   payload : ∀ (n : Nat), (code[j]? = some (Instr.TAILCALL n) ∨ code[j]? = some (Instr.TCOJMP n)) → n ≤ ps.maxN
+  fwd : ∀ (t : Nat), (code[j]? = some (Instr.IF t) ∨ code[j]? = some (Instr.JMP t)) → j < t
+  word : ∀ (g n : Nat), (code[j]? = some (Instr.CALLGLOBALTAIL g) ∨ code[j]? = some (Instr.CALLGLOBAL g)) →
+    (code[j + 1]? = some (Instr.TAILCALL n) ∨ code[j + 1]? = some (Instr.FUNC n)) → n ≤ ps.maxN
   pure : ∀ (s : Nat) (body : List Instr), code[j]? = some (Instr.PUREFUNC s) →
     slice code (j + 3) (s - 3) = some body → GoodCode ps false body
   clos : ∀ (s n : Nat) (body : List Instr), code[j]? = some (Instr.NEWSCLOSURE s) →
@@ -95,7 +98,7 @@ theorem PathOk.covers {a K : Nat} (h : PathOk ps top code a K) : ∀ j, Path cod
 theorem goodCode_of_pathOk (hlen : code.length ≤ ps.maxLen) (h : PathOk ps top code 0 code.length) :
     GoodCode ps top code := by
   have hc := h.covers
-  refine .mk ⟨hlen, ?_, ?_, ?_, ?_, ?_⟩ ?_ ?_
+  refine .mk ⟨hlen, ?_, ?_, ?_, ?_, ?_, ?_, ?_⟩ ?_ ?_
   · intro j n hp hj; exact (hc j hp (lt_of_get' hj)).func n hj
   · intro j g hp hj; exact (hc j hp (lt_of_get' hj)).callg g hj
   · intro j t hp hj
@@ -107,6 +110,12 @@ theorem goodCode_of_pathOk (hlen : code.length ≤ ps.maxLen) (h : PathOk ps top
   · intro j n hp hj
     have hl : j < code.length := by rcases hj with hj | hj <;> exact lt_of_get' hj
     exact (hc j hp hl).payload n hj
+  · intro j t hp hj
+    have hl : j < code.length := by rcases hj with hj | hj <;> exact lt_of_get' hj
+    exact (hc j hp hl).fwd t hj
+  · intro j g n hp hj hw
+    have hl : j < code.length := by rcases hj with hj | hj <;> exact lt_of_get' hj
+    exact (hc j hp hl).word g n hj hw
   · intro j s body hp hj hs; exact (hc j hp (lt_of_get' hj)).pure s body hj hs
   · intro j s n body hp hj hn hs; exact (hc j hp (lt_of_get' hj)).clos s n body hj hn hs
 
@@ -115,6 +124,7 @@ theorem goodCode_of_pathOk (hlen : code.length ≤ ps.maxLen) (h : PathOk ps top
 def plain : Instr → Bool
   | .FUNC _ => false
   | .CALLGLOBAL _ => false
+  | .CALLGLOBALTAIL _ => false
   | .IF _ => false
   | .JMP _ => false
   | .BIND _ => false
@@ -126,43 +136,49 @@ def plain : Instr → Bool
   | _ => true
 
 theorem iok_plain {j : Nat} {x : Instr} (hx : code[j]? = some x) (hp : plain x = true) : InstrOk ps top code j := by
-  cases x <;> simp [plain] at hp <;> (refine ⟨?_, ?_, ?_, ?_, ?_, ?_, ?_⟩ <;> intros <;> simp_all)
+  cases x <;> simp [plain] at hp <;> (refine ⟨?_, ?_, ?_, ?_, ?_, ?_, ?_, ?_, ?_⟩ <;> intros <;> simp_all)
 
 theorem iok_func {j n : Nat} (hx : code[j]? = some (Instr.FUNC n)) (ht : top = true) (hn : n ≤ ps.maxN) :
     InstrOk ps top code j := by
-  refine ⟨?_, ?_, ?_, ?_, ?_, ?_, ?_⟩ <;> intros <;> simp_all
+  refine ⟨?_, ?_, ?_, ?_, ?_, ?_, ?_, ?_, ?_⟩ <;> intros <;> simp_all
 
-theorem iok_callg {j g : Nat} (hx : code[j]? = some (Instr.CALLGLOBAL g)) (h : top = true ∨ g ∈ ps.slots) :
+theorem iok_callgtail {j g : Nat} (hx : code[j]? = some (Instr.CALLGLOBALTAIL g))
+    (hw : ∀ n, (code[j + 1]? = some (Instr.TAILCALL n) ∨ code[j + 1]? = some (Instr.FUNC n)) → n ≤ ps.maxN) :
     InstrOk ps top code j := by
-  refine ⟨?_, ?_, ?_, ?_, ?_, ?_, ?_⟩ <;> intros <;> simp_all
+  refine ⟨?_, ?_, ?_, ?_, ?_, ?_, ?_, ?_, ?_⟩ <;> intros <;> simp_all
 
-theorem iok_if {j t : Nat} (hx : code[j]? = some (Instr.IF t)) (h : Ok code t) : InstrOk ps top code j := by
-  refine ⟨?_, ?_, ?_, ?_, ?_, ?_, ?_⟩ <;> intros <;> simp_all
+theorem iok_callg {j g : Nat} (hx : code[j]? = some (Instr.CALLGLOBAL g)) (h : top = true ∨ g ∈ ps.slots)
+    (hw : ∀ n, (code[j + 1]? = some (Instr.TAILCALL n) ∨ code[j + 1]? = some (Instr.FUNC n)) → n ≤ ps.maxN) :
+    InstrOk ps top code j := by
+  refine ⟨?_, ?_, ?_, ?_, ?_, ?_, ?_, ?_, ?_⟩ <;> intros <;> simp_all
 
-theorem iok_jmp {j t : Nat} (hx : code[j]? = some (Instr.JMP t)) (h : Ok code t) : InstrOk ps top code j := by
-  refine ⟨?_, ?_, ?_, ?_, ?_, ?_, ?_⟩ <;> intros <;> simp_all
+theorem iok_if {j t : Nat} (hx : code[j]? = some (Instr.IF t)) (h : Ok code t) (hf : j < t) : InstrOk ps top code j := by
+  refine ⟨?_, ?_, ?_, ?_, ?_, ?_, ?_, ?_, ?_⟩ <;> intros <;> simp_all
+
+theorem iok_jmp {j t : Nat} (hx : code[j]? = some (Instr.JMP t)) (h : Ok code t) (hf : j < t) : InstrOk ps top code j := by
+  refine ⟨?_, ?_, ?_, ?_, ?_, ?_, ?_, ?_, ?_⟩ <;> intros <;> simp_all
 
 theorem iok_bind {j g : Nat} (hx : code[j]? = some (Instr.BIND g)) (h : g ∉ ps.slots) : InstrOk ps top code j := by
-  refine ⟨?_, ?_, ?_, ?_, ?_, ?_, ?_⟩ <;> intros <;> simp_all
+  refine ⟨?_, ?_, ?_, ?_, ?_, ?_, ?_, ?_, ?_⟩ <;> intros <;> simp_all
 
 theorem iok_set {j g : Nat} (hx : code[j]? = some (Instr.SET g)) (h : g ∉ ps.slots) : InstrOk ps top code j := by
-  refine ⟨?_, ?_, ?_, ?_, ?_, ?_, ?_⟩ <;> intros <;> simp_all
+  refine ⟨?_, ?_, ?_, ?_, ?_, ?_, ?_, ?_, ?_⟩ <;> intros <;> simp_all
 
 theorem iok_tailcall {j n : Nat} (hx : code[j]? = some (Instr.TAILCALL n)) (h : n ≤ ps.maxN) :
     InstrOk ps top code j := by
-  refine ⟨?_, ?_, ?_, ?_, ?_, ?_, ?_⟩ <;> intros <;> simp_all
+  refine ⟨?_, ?_, ?_, ?_, ?_, ?_, ?_, ?_, ?_⟩ <;> intros <;> simp_all
 
 theorem iok_tcojmp {j n : Nat} (hx : code[j]? = some (Instr.TCOJMP n)) (h : n ≤ ps.maxN) :
     InstrOk ps top code j := by
-  refine ⟨?_, ?_, ?_, ?_, ?_, ?_, ?_⟩ <;> intros <;> simp_all
+  refine ⟨?_, ?_, ?_, ?_, ?_, ?_, ?_, ?_, ?_⟩ <;> intros <;> simp_all
 
 theorem iok_purefunc {j s : Nat} {b : List Instr} (hx : code[j]? = some (Instr.PUREFUNC s))
     (hs : slice code (j + 3) (s - 3) = some b) (hb : GoodCode ps false b) : InstrOk ps top code j := by
-  refine ⟨?_, ?_, ?_, ?_, ?_, ?_, ?_⟩ <;> intros <;> simp_all
+  refine ⟨?_, ?_, ?_, ?_, ?_, ?_, ?_, ?_, ?_⟩ <;> intros <;> simp_all
 
 theorem iok_newsclosure {j s n : Nat} {b : List Instr} (hx : code[j]? = some (Instr.NEWSCLOSURE s))
     (hn : code[j + 3]? = some (Instr.NDEFS n))
     (hs : slice code (j + 4 + n) (s - 4 - n) = some b) (hb : GoodCode ps false b) : InstrOk ps top code j := by
-  refine ⟨?_, ?_, ?_, ?_, ?_, ?_, ?_⟩ <;> intros <;> simp_all
+  refine ⟨?_, ?_, ?_, ?_, ?_, ?_, ?_, ?_, ?_⟩ <;> intros <;> simp_all
 
 end SteelVerif.C09C.T
